@@ -16,6 +16,7 @@ atomic call on one cache:
   rrlookup - rr_cache over a bare archive used as the cache: lookup()/key()/info() between calls do not change what is evicted.
   stacked - a klepto cache over a klepto-cached function, and over a function with attributes named like the interface: the outer
            wrapper's info()/clear()/__cache__() are its own.
+  bigvalue - results whose pickle exceeds a megabyte, evicted into a compressing dir_archive: archived with the same value.
   reuse  - ONE decorator object applied to two functions (`memo = lru_cache(maxsize=3); f = memo(f0); g = memo(g0)`): each
            function's results are its own, each has its own account in info(), clear() of one leaves the other's counters.
 
@@ -64,6 +65,7 @@ def gen(tier, idx):
     if idx % 32 == 27: scen = 'redecorate'
     if idx % 64 == 19: scen = 'rrlookup'
     if idx % 64 == 51: scen = 'stacked'
+    if idx % 64 == 35: scen = 'bigvalue'
     algo = ALGOS[(idx // 4) % 6]; safe = (idx // 24) % 2 == 1
     cfg = dict(scen=scen, algo=algo, safe=safe, seed=r.randrange(10 ** 6), maxsize=r.choice([1, 2, 3, 3, 5]), purge=r.random() < 0.35)
     if scen == 'reuse': cfg.update(algo=ALGOS[(idx // 8) % 6], safe=(idx // 48) % 2 == 1)
@@ -73,6 +75,11 @@ def gen(tier, idx):
         cfg.update(algo=['lru', 'lfu', 'mru', 'rr', 'no'][(idx // 8) % 5], safe=(idx // 40) % 2 == 1, arch='dir', purge=False, maxsize=r.choice([1, 2]),
                    keymap=['string', 'raw', 'stringr'][(idx // 8) % 3], calls=[r.randrange(len(NAME_ARGS)) for _ in range(24)])
     if scen == 'names': pass
+    elif scen == 'bigvalue':
+        # results whose pickle is larger than a megabyte, evicted into a dir_archive that writes its entries with klepto's own (compressing /
+        # memory-mapping) pickler: what left memory is in the archive WITH THE SAME VALUE
+        cfg.update(algo=['lru', 'lfu', 'mru', 'rr', 'no'][(idx // 64) % 5], safe=(idx // 64) % 2 == 1, arch='dirz', purge=(idx // 128) % 2 == 1, maxsize=1,
+                   opts=[dict(compression=3), dict(compression=9), dict(fast=True)][(idx // 64) % 3], calls=[r.randrange(3) for _ in range(8)])
     elif scen == 'stacked':
         # a klepto cache over a klepto cache (a small in-memory one over an archived one), and a function that carries attributes of its own
         # named like the wrapper's interface: the OUTER wrapper's info / clear / lookup / __cache__ are the outer wrapper's
@@ -114,7 +121,8 @@ def gen(tier, idx):
         if algo in ('inf', 'no'): cfg['algo'] = r.choice(['lru', 'lfu', 'mru', 'rr'])
         cfg.update(arch=r.choice(['filejson', 'file', 'sql']), purge=False, bad=r.randrange(3, 8), calls=[r.randrange(10) for _ in range(30)])
         # (fixed strata: every bounded algorithm meets every archive; the database table RAISES on a value it cannot bind, the files swallow it)
-        cfg.update(algo=['lru', 'lfu', 'mru', 'rr'][(idx // 16) % 4], arch=['sql', 'file', 'filejson'][(idx // 64) % 3], maxsize=[1, 2, 3][(idx // 16) % 3])
+        cfg.update(algo=['lru', 'lfu', 'mru', 'rr'][(idx // 16) % 4], arch=['sql', 'file', 'filejson'][(idx // 64) % 3], maxsize=[1, 2, 3][(idx // 16) % 3],
+                   purge=(idx // 64) % 2 == 1)        # (with purge=True the overflow writes EVERYTHING back: a write-back that raises half-way must not empty the memory)
     return cfg
 
 
@@ -256,6 +264,21 @@ def run_case(cfg):
                 if len(f.__cache__()) > cfg['maxsize']:
                     bad('C05', 'purge-size-exceeds-maxsize', 'purge=True over a JSON file archive (%s keys): after h(%d) the cache holds %d entries' % (cfg['keymap'], x, len(f.__cache__())), keymap=cfg['keymap'])
                     break
+        elif cfg['scen'] == 'bigvalue':
+            import klepto.archives as ka
+            def big(x): return ('%d' % x) * 1600000 if x else 'small'
+            a = ka.dir_archive(os.path.join(tmp, 'bz'), cached=False, **cfg['opts'])
+            f = D(**dkw(cfg, kcache(archive=a)))(big)
+            for x in cfg['calls']:
+                got = callf(f, x)
+                if got is not _Raised and got != big(x): bad('C01', 'bigvalue-wrong-result', 'big(%d) returned %d characters %.20r..., the function gives %d characters' % (x, len(got), got, len(big(x))))
+                for k_ in list(a.keys()):
+                    try: v_ = a[k_]
+                    except Exception as e: v_ = 'EXC %s' % type(e).__name__
+                    if not (isinstance(v_, str) and (v_ == 'small' or (len(v_) == 1600000 and len(set(v_)) == 1))):
+                        bad('C07', 'archived-value-differs', 'after big(%d) the archive entry %.30r reads as %.40r (%s characters)' % (x, k_, v_, len(v_) if isinstance(v_, str) else '?'), opts=sorted(cfg['opts']))
+                        break
+                if viol: break
         elif cfg['scen'] == 'stacked':
             import klepto, klepto.safe
             from klepto.keymaps import stringmap
@@ -472,7 +495,7 @@ def explore(prop, tier, offset=0):
         tags[o['cfg']['scen']] += 1; tags['algo=' + o['cfg']['algo']] += 1
         for v in o['viol']:
             if v['prop'] in (prop, '*'): viols.append(dict(v, prop=prop, i=0, cfg=o['cfg'], ops=[]))
-    n = sum(tags[s] for s in ('recur', 'twin', 'unser', 'reuse', 'names', 'chdir', 'hashraises', 'jsonpurge', 'redecorate', 'rrlookup', 'stacked'))
+    n = sum(tags[s] for s in ('recur', 'twin', 'unser', 'reuse', 'names', 'chdir', 'hashraises', 'jsonpurge', 'redecorate', 'rrlookup', 'stacked', 'bigvalue'))
     # the recursive traces against the model (flat history of completions)
     import run_wrapper as rw
     trs = [o['trace'] for o in res if o.get('trace') is not None]
